@@ -12,7 +12,7 @@ import vlib
 
 PID = "C16"
 SPEC, CFG, DIAG = "Tr_Proof.tla", "Tr_Proof.cfg", "Tr_Proof_diag.cfg"
-SIZES = {"quick": dict(games=56, filter_s=75, bound_games=1500, per=10), "thorough": dict(games=3000, filter_s=2400, bound_games=40000, per=16)}
+SIZES = {"quick": dict(games=48, filter_s=50, kgames=800, bound_games=1500, per=10), "thorough": dict(games=3000, filter_s=2400, kgames=30000, bound_games=40000, per=16)}
 
 
 def run(tier, seed):
@@ -44,6 +44,31 @@ def run(tier, seed):
     if pc.returncode != 0:
         raise vlib.ToolFailure("h_proof convert: " + pc.stderr[-300:])
     info = json.loads(pc.stdout.strip().split("\n")[-1])
+    # first-stage verdicts (static rules, distance heuristic, proof kernel, extended kernel; 'illegal' can only come from this stage)
+    # on a much larger set of reachable positions: 'texelutil proofgame -f' without the iterated path / proof game search
+    kg, kf, ko = os.path.join(wd, "kgames.txt"), os.path.join(wd, "kfens.txt"), os.path.join(wd, "kout.txt")
+    vlib.sh([hp, "games", str(seed + 9000), str(sz["kgames"]), kg, kf], timeout=900)
+    with open(kf) as fi, open(ko, "w") as fo, open(os.path.join(wd, "kfilter.log"), "w") as lo:
+        kr = subprocess.run([os.path.join(bdir, "texelutil"), "-j", "16", "proofgame", "-f"], stdin=fi, stdout=fo, stderr=lo, timeout=6000)
+    if kr.returncode != 0:
+        rep.violation("filter-crash", f"texelutil proofgame -f exited {kr.returncode}", files=[os.path.join(wd, "kfilter.log")])
+    kinfo = {"positions": 0, "legal": 0, "unknown": 0, "illegal": 0}
+    kfiles = []
+    kgl, kol = open(kg).read().strip().split("\n"), open(ko).read().strip().split("\n")
+    if len(kol) != len(kgl):
+        raise vlib.ToolFailure(f"proofgame -f answered {len(kol)} of {len(kgl)} positions")
+    kparts = 10
+    for k in range(kparts):
+        gp, op_, tp = os.path.join(wd, f"kg.{k}.txt"), os.path.join(wd, f"ko.{k}.txt"), os.path.join(wd, f"kpg.{k}.ndjson")
+        open(gp, "w").write("\n".join(kgl[k::kparts]) + "\n")
+        open(op_, "w").write("\n".join(kol[k::kparts]) + "\n")
+        pk = vlib.sh([hp, "convert", gp, op_, tp], timeout=600)
+        if pk.returncode != 0:
+            raise vlib.ToolFailure("h_proof convert: " + pk.stderr[-300:])
+        ki = json.loads(pk.stdout.strip().split("\n")[-1])
+        for x in kinfo:
+            kinfo[x] += ki[x]
+        kfiles.append(tp)
     # bounds on a larger set of games
     g2, f2 = os.path.join(wd, "games2.txt"), os.path.join(wd, "fens2.txt")
     vlib.sh([hp, "games", str(seed + 5000), str(sz["bound_games"]), g2, f2], timeout=900)
@@ -53,7 +78,7 @@ def run(tier, seed):
     # split the games over several processes
     glines = open(g2).read().strip().split("\n") + open(g3).read().strip().split("\n")
     nproc = 12
-    files = [tr]
+    files = [tr] + kfiles
     jobs = []
     for k in range(nproc):
         part = os.path.join(wd, f"g2.{k}.txt")
@@ -74,9 +99,10 @@ def run(tier, seed):
         nb += inf["bounds"]
     vlib.linear_check(rep, SPEC, CFG, DIAG, files, wd)
     rep.cov.update({"final_positions_classified": info["positions"], "verdict_legal_with_proof": info["legal"], "verdict_unknown": info["unknown"],
-                    "verdict_illegal": info["illegal"], "distance_bounds_checked": nb, "filter_iterations_completed": len(complete)})
-    rep.cov["evaluations"] = info["positions"] + nb
-    rep.cov["distinct_nontrivial"] = info["positions"] + nb
+                    "verdict_illegal": info["illegal"], "distance_bounds_checked": nb, "first_stage_positions": kinfo["positions"], "first_stage_legal": kinfo["legal"],
+                    "first_stage_unknown": kinfo["unknown"], "first_stage_illegal": kinfo["illegal"], "filter_iterations_completed": len(complete)})
+    rep.cov["evaluations"] = info["positions"] + kinfo["positions"] + nb
+    rep.cov["distinct_nontrivial"] = info["positions"] + kinfo["positions"] + nb
     rep.cov["rule"] = ("final positions of seeded random legal games (1..150 plies, captures only while more than 26 men remain, castling preferred now and then); "
                        "bounds: prefix positions of further games against their own continuation up to the final position or up to a later prefix position; each classified position / bound is a distinct obligation")
     try:
